@@ -164,6 +164,18 @@ pub fn shapes<V: VariableBaseMSM>(io: &GroupIo<V>, rep: &mut Report, rng: &mut R
                             other => rep.violation(sig("msm (checked)", "length-error"), json!({"group": io.name, "bases": b.len(), "scalars": s.len(), "got": format!("{:?}", other.map(|_| "Ok").map_err(|e| e))})),
                         }
                     }
+                    // chunked streams: a longer bases stream is aligned with the scalars at its END (the leading
+                    // surplus bases are skipped), as the method's comments document
+                    if n > 1 {
+                        let k = 1 + (rix % (n - 1));
+                        let exp_tail = (io.naive)(&bases[k..], &ks[..n - k]);
+                        if let Some(got) = rep.total(&sig("msm_chunks", "total"), || d("msm_chunks (more bases than scalars)"), || V::msm_chunks(&&bases[..], &&ss[..n - k])) {
+                            rep.class("msm_chunks: more bases than scalars");
+                            if got != exp_tail {
+                                rep.violation(sig("msm_chunks", "stream-alignment"), json!({"group": io.name, "bases": n, "scalars": n - k}));
+                            }
+                        }
+                    }
                     // unchecked: truncated to the shorter input
                     let exp_short = (io.naive)(short_b, &ks[..n - 1]);
                     for (b, s) in [(short_b, &ss[..]), (&bases[..], short_s)] {
@@ -442,6 +454,7 @@ const REQUIRED_SHAPES: &[&str] = &[
     "length < 32 (window 3)",
     "length >= 32 (window from ln)",
     "mismatched lengths",
+    "msm_chunks: more bases than scalars",
     "scalars: all zero",
     "scalars: all one (unit-scalar shortcut)",
     "scalars: all r-1",
